@@ -6,12 +6,12 @@ package main
 
 func init() {
 	registry["C01"] = &propSpec{
-		Rules:       []ruleFn{ruleC01Range, ruleC01Head, ruleC17Srv},
+		Rules:       []ruleFn{ruleC01Range, ruleC01Head, ruleC17Srv, ruleC06Hole, ruleC06Snapstep},
 		Explanation: "Necessary structural conditions of block read-back semantics, decided on every path of the source: (C01-RANGE) each controller call into the replicator's WriteAt/ReadAt is dominated by the exact facts off>=0 and off+len(b)<=c.size under the controller lock; (C01-HEADWRITE) fullWriteAt writes only the head file and records every written sector in the block map unconditionally, no other function writes a chain file, read-modify-write of edge blocks runs under rmLock, RemoveIndex shifts every entry >= index, lookup probes from the head downwards, preload records every extent under the scanned file; (C17-SRV-GUARD) the replica data path dereferences the open replica only under the server read lock and a nil test.",
 		NotDecided:  "byte-level equality of what is read with what was written (values of the run-time map, FIEMAP extents, unaligned split arithmetic), zero-fill of never-written ranges.",
 	}
 	registry["C02"] = &propSpec{
-		Rules:       []ruleFn{ruleC02Majority, ruleC02WaitAll, ruleC02Decode, ruleDetach("C02-DETACH"), ruleBuildRW("C02-WRITERS"), ruleIndexMapUse("C02-INDEXMAP"), ruleC03Gate},
+		Rules:       []ruleFn{ruleC02Majority, ruleC02WaitAll, ruleC02Decode, ruleDetach("C02-DETACH"), ruleBuildRW("C02-WRITERS"), ruleIndexMapUse("C02-INDEXMAP"), ruleC03Gate, ruleC04Lists("C02-LISTS"), ruleC15Client, ruleErrFlow("C02-ERRFLOW")},
 		Explanation: "Decides that (C02-WAITALL) MultiWriterAt waits for every writer and records each writer's error in its own slot; (C02-MAJORITY) a majority-encoded return taken with errors is guarded by the exact strict-majority fact W-E-W/2-1>=0 (and the writers+updaters conjunct for WriteAt), every other error return carries the no-majority encoding; (C02-DECODE) Controller.WriteAt/Sync/Unmap accept exactly that encoding; (C02-INDEXMAP) per-writer errors are attributed through the index map built in lock-step with the writer list; (C02-DETACH) every failed replica is marked ERR and removed before the I/O's lock is released; (C02-WRITERS) writers are exactly the non-ERR backends.",
 		NotDecided:  "that a replica which reported success applied the write; the history-level consequence (every in-service replica holds every acknowledged write).",
 	}
@@ -21,27 +21,27 @@ func init() {
 		NotDecided:  "that replicas believed RW are up to date; liveness beyond freshness at unlock.",
 	}
 	registry["C04"] = &propSpec{
-		Rules:       []ruleFn{ruleBuildRW("C04-READERS"), ruleC04Lists("C04-LISTS"), ruleIndexMapUse("C04-READSRC"), ruleC04Verify("C04-VERIFY"), ruleC04Promote("C04-PROMOTE"), ruleC04ReadGate, ruleDetach("C04-DETACH"), ruleC05Monitor("C04-ERRSUPPRESS")},
+		Rules:       []ruleFn{ruleBuildRW("C04-READERS"), ruleC04Lists("C04-LISTS"), ruleIndexMapUse("C04-READSRC"), ruleC04Verify("C04-VERIFY"), ruleC04Promote("C04-PROMOTE"), ruleC04ReadGate, ruleDetach("C04-DETACH"), ruleC05Monitor("C04-ERRSUPPRESS"), ruleC19Promote("C04-CLONEGATE"), ruleC09},
 		Explanation: "Decides that readers are exactly the mode==RW backends and are rebuilt after every change of the backend map or of a mode; reads are issued only from replicator.ReadAt on r.readers[index] and a failed reader is reported under the same index; the only promotion sites are the allow-listed ones; VerifyRebuildReplica promotes only after, in order, WO mode, both chains and the checkpoint fetched, checkpoint containment, DeepEqual of the chains, the RW counter read, the replica switched to RW and the counter copied; the reference replica is selected under Mode==RW; ERR is sticky.",
 		NotDecided:  "that an equal chain implies equal data; round-robin fairness.",
 	}
 	registry["C05"] = &propSpec{
-		Rules:       []ruleFn{ruleDetach("C05-DETACH"), ruleC05Monitor("C05-MONITOR"), ruleC04Lists("C05-STOPIO"), ruleC05Ping("C05-PING"), ruleC15Client, ruleC02Majority, ruleC02Decode, ruleIndexMapUse("C05-INDEXMAP"), ruleC04ReadGate, ruleC14Block},
+		Rules:       []ruleFn{ruleDetach("C05-DETACH"), ruleC05Monitor("C05-MONITOR"), ruleC04Lists("C05-STOPIO"), ruleC05Ping("C05-PING"), ruleC15Client, ruleC02Majority, ruleC02Decode, ruleIndexMapUse("C05-INDEXMAP"), ruleC04ReadGate, ruleC14Block, ruleErrFlow("C05-ERRFLOW")},
 		Explanation: "Decides that every failure detector ends in ERR marking plus removal under the controller lock (I/O error paths, monitor goroutine, ping failure, rpc time-out / transport error poisoning the client and failing all pending requests), that a removed backend leaves the reader/writer lists at once, that backend I/O is issued only through those lists, and that a failing strict minority still yields the majority encoding accepted by the controller.",
 		NotDecided:  "wall-clock promptness; which detector fires first; that the survivors hold the data.",
 	}
 	registry["C06"] = &propSpec{
-		Rules:       []ruleFn{ruleC06Hole, ruleC06Snapstep, ruleC01Head, ruleC11Sync, ruleC06RevertCtl, ruleC12Rollback},
+		Rules:       []ruleFn{ruleC06Hole, ruleC06Snapstep, ruleC01Head, ruleC11Sync, ruleC06RevertCtl, ruleC12Rollback, ruleC12},
 		Explanation: "Decides that every hole-punch request targets the file whose index the dominating strict guard compared with the latest user-created snapshot index (guard/use consistency via files[G] or paired phis), that UserCreatedSnap changes in lock-step with the file list and SnapIndx is set only under the user-created flag, that the hole queue is drained before files are unlinked or closed, that only fullWriteAt writes chain files (and only the head), and that revert creates the new head on the requested snapshot, commits volume.meta before removing the old head and reloads with preload.",
 		NotDecided:  "that the snapshot image equals the volume at the instant it was taken; byte identity after preload/reopen; what FIEMAP reports.",
 	}
 	registry["C07"] = &propSpec{
-		Rules:       []ruleFn{ruleC07AddOrder("C07-ADD-ORDER"), ruleC07Merge, ruleC07Sync, ruleC07SyncFiles, ruleCanAdd("C07-ONE-WO"), ruleC04Verify("C07-VERIFY"), ruleBuildRW("C07-WRITERS"), ruleIndexMapUse("C07-INDEXMAP"), ruleC01Head},
+		Rules:       []ruleFn{ruleC07AddOrder("C07-ADD-ORDER"), ruleC07Merge, ruleC07Sync, ruleC07SyncFiles, ruleCanAdd("C07-ONE-WO"), ruleC04Verify("C07-VERIFY"), ruleBuildRW("C07-WRITERS"), ruleIndexMapUse("C07-INDEXMAP"), ruleC07Copy("C07-COPY"), ruleC01Head, ruleErrFlow("C07-ERRFLOW")},
 		Explanation: "Decides the ordering obligations of a rebuild: admission only after canAdd, the same snapshot on old and new replicas, WO mode on replica, list entry and wrapper; at most one WO unless the newcomer has the strictly greater revision and the old WO was removed; punching off and rebuilding flag set before the copy; ReloadReplica -> SyncDir -> UpdateLUNMap -> VerifyRebuildReplica -> SetRebuilding(false), each after the success of its predecessor; the live block map is overwritten by the preloaded one only where live <= preloaded; WO replicas receive every write; promotion as in C04-VERIFY.",
 		NotDecided:  "byte identity (copying is done by external ssync); interleavings and crash points of three processes.",
 	}
 	registry["C08"] = &propSpec{
-		Rules:       []ruleFn{ruleC08Atomic, ruleC08Err, ruleC08Commit, ruleC08Dur, ruleC08CloseWho, ruleC16Repl},
+		Rules:       []ruleFn{ruleC08Atomic, ruleC08Err, ruleC08Commit, ruleC08Dur, ruleC08CloseWho, ruleC16Repl, ruleErrFlow("C08-ERRFLOW"), ruleC08Order("C08-ORDER")},
 		Explanation: "Decides that metadata is written tmp(O_CREATE|O_TRUNC|O_SYNC) -> Encode -> Close -> Rename -> SyncDir with each step after the success of the previous; that no error of a metadata/directory primitive is dropped or tested through the wrong variable; the commit order of snapshot creation and removal; and, by a {clean,dirty} typestate with interprocedural summaries, that on fault-free executions every exported replica operation returns success only with the directory fsynced after its last directory-entry change.",
 		NotDecided:  "what reopen sees at each intermediate on-disk state; torn 4 KiB writes; durability of O_DIRECT data.",
 	}
@@ -51,27 +51,27 @@ func init() {
 		NotDecided:  "truthfulness of reported counts; liveness probes; orderings of registrations as such.",
 	}
 	registry["C10"] = &propSpec{
-		Rules:       []ruleFn{ruleC10, ruleRevParse("C10-REVPARSE"), ruleC04Verify("C10-PROMOTE-COPY"), ruleC17Srv},
+		Rules:       []ruleFn{ruleC10, ruleRevParse("C10-REVPARSE"), ruleC04Verify("C10-PROMOTE-COPY"), ruleC17Srv, ruleC09, ruleErrFlow("C10-ERRFLOW"), ruleC08Order("C10-INIT")},
 		Explanation: "Decides that the counter is increased exactly once per write, only in RW mode and only after the data write succeeded; that the cache and the counter file are touched only by the revision-counter API under revisionLock, the cache after the persist and with the persisted value; that setting requires RW; and that promotion copies the RW replica's counter after switching the replica to RW, under the controller lock.",
 		NotDecided:  "monotonicity across a crash (atomicity of one O_DIRECT 4 KiB write); equality of counters across replicas as a run-time fact.",
 	}
 	registry["C11"] = &propSpec{
-		Rules:       []ruleFn{ruleC11Refuse("C11-REFUSE"), ruleC11Sync, ruleC11Rest, ruleC12, ruleC06Snapstep},
+		Rules:       []ruleFn{ruleC11Refuse("C11-REFUSE"), ruleC11Sync, ruleC11Rest, ruleC12, ruleC06Snapstep, ruleErrFlow("C11-ERRFLOW")},
 		Explanation: "Decides the refusals (head, latest, base, non-RW) dominating every mark-removed / unlink, the candidate range chain[1:indx] below the checkpoint with both user-snapshot exclusions (disk and merge target), that the cleaner acts only when controller and replica agree on the checkpoint and never unlinks after a failed merge, that user deletion needs all RF replicas RW and a checkpoint that is not the victim, and the splice of file list / block map / activeDiskData at one index after re-parenting.",
 		NotDecided:  "that the external merge (sfold) preserves content.",
 	}
 	registry["C12"] = &propSpec{
-		Rules:       []ruleFn{ruleC12, ruleC12Chain, ruleC12Rollback, ruleC08CloseWho, ruleC12Publish, ruleC08Commit, ruleC11Refuse("C12-REFUSE")},
+		Rules:       []ruleFn{ruleC12, ruleC12Chain, ruleC12Rollback, ruleC08CloseWho, ruleC12Publish, ruleC08Commit, ruleC11Refuse("C12-REFUSE"), ruleC06Snapstep, ruleErrFlow("C12-ERRFLOW"), ruleC08Order("C12-ORDER")},
 		Explanation: "Decides that every change of a persisted attribute is written to its metadata file on all success paths (or published only after the write), that request-supplied disk names are validated before any file operation, that open accepts every chain length create can produce, the commit order of createDisk, and (C12-PUBLISH) that createDisk / markDiskAsRemoved do not return an error after the in-memory chain was modified - the latter is violated today and recorded as a known finding.",
 		NotDecided:  "acyclicity/shape of the chain as a run-time graph; equality of the reopened chain with the previous one.",
 	}
 	registry["C13"] = &propSpec{
-		Rules:       []ruleFn{ruleC13Ctl, ruleFresh("C13-FRESH", fCtl+"UpdateCheckpoint"), ruleC03Gate, ruleC12, ruleC13Persist},
+		Rules:       []ruleFn{ruleC13Ctl, ruleFresh("C13-FRESH", fCtl+"UpdateCheckpoint"), ruleC03Gate, ruleC12, ruleC13Persist, ruleC08Atomic, ruleC08Err, ruleErrFlow("C13-ERRFLOW")},
 		Explanation: "Decides that the snapshot fan-out and every mutating I/O run under the controller write lock (so they cannot interleave), that a volume snapshot needs RWReplicaCount==RF, goes to every non-ERR backend with identical arguments and reports per-replica failures; that the checkpoint is non-empty only when rw==RF, all RW chains agree on chain[1] and every replica stored it; that the checkpoint is recomputed before the lock is released after any membership change; and that the replica persists it.",
 		NotDecided:  "identical content of the snapshot across replicas.",
 	}
 	registry["C14"] = &propSpec{
-		Rules:       []ruleFn{ruleC14Lock, ruleC14Block, ruleC14Fatal, ruleC14Idx, ruleC14Wrap, ruleC17Matrix, ruleC17Srv, ruleC07AddOrder("C14-NODUP"), ruleC09},
+		Rules:       []ruleFn{ruleC14Lock, ruleC14Block, ruleC14Fatal, ruleC14Idx, ruleC14Wrap, ruleC17Matrix, ruleC17Srv, ruleC07AddOrder("C14-NODUP"), ruleC09, ruleWgDone("C14-WGDONE"), ruleNilOK("C14-NILOK")},
 		Explanation: "Decides, for every production function: no double unlock (incl. deferred), no self-deadlock directly or through a callee, no return with a lock held, an acyclic lock order; no blocking send under the controller / replica-server lock outside the allow-listed consumer-backed queues; in the handler-reachable region only allow-listed terminators and single-value type assertions, bounds facts on chains received from replicas, no nil result dereferenced with its error ignored; every route wrapped by HandleError and action routes by checkAction.",
 		NotDecided:  "panics inside third-party handlers, resource exhaustion, liveness of remote calls made under the lock.",
 	}
@@ -81,7 +81,7 @@ func init() {
 		NotDecided:  "matching under all interleavings as a history property; behaviour on corrupted streams beyond the magic check; bounded time.",
 	}
 	registry["C16"] = &propSpec{
-		Rules:       []ruleFn{ruleC16Ctl, ruleC16Repl, ruleC17Matrix},
+		Rules:       []ruleFn{ruleC16Ctl, ruleC16Repl, ruleC17Matrix, ruleErrFlow("C16-ERRFLOW")},
 		Explanation: "Decides that shrinking and equal sizes are refused on the controller and shrinking on the replica before anything is touched; that the controller records the new size only after all non-ERR replicas (incl. rebuilding ones) and the frontend resized; that the replica truncates every chain member, extends the block map by (new-old)/4096 before overwriting the size, and persists r.info after the store.",
 		NotDecided:  "that existing bytes are unchanged and the new range reads zero (properties of truncate(2)).",
 	}
@@ -96,7 +96,7 @@ func init() {
 		NotDecided:  "the invariants as statements over all reachable states (only preservation by every mutation site).",
 	}
 	registry["C19"] = &propSpec{
-		Rules:       []ruleFn{ruleC19Promote("C19-PROMOTE"), ruleC19Clone, ruleC07AddOrder("C19-WO")},
+		Rules:       []ruleFn{ruleC19Promote("C19-PROMOTE"), ruleC19Clone, ruleC07AddOrder("C19-WO"), ruleSyncFilesAs("C19-SYNCFILES", 5), ruleC08Err, ruleErrFlow("C19-ERRFLOW")},
 		Explanation: "Decides that the clone procedure reports success only after SetRebuilding(true), the copy of the chain from S, UpdateCloneInfo(S, S's revision), reload, block-map rebuild and SetRebuilding(false) each succeeded in that order; that the status becomes completed only after that (or if it already was), inProgress before the copy, error after a failure, and is persisted; and that the new controller promotes the replica only after reading a status that is none of empty / inProgress / error, removing the replica on error.",
 		NotDecided:  "byte identity with S; the interleaving of the copy with the other controller's polling as a schedule.",
 	}
